@@ -5,7 +5,6 @@ V = '/verif'
 REVERTS = [
     ('F5-usage255', 'f59daae', {'C08': ['S05-4:usage-to-params'], 'C05': ['S05-4:usage-to-params']}),
     ('F9-backsig-secret-subkey', '18e3c00', {'C15': ['S02-6:backsig:composed::signed_key::secret'], 'C02': ['S02-6:backsig:composed::signed_key::secret']}),
-    ('F10-inline-version-alignment', '702ece5', {'C15': ['S15-4:align:composed::message::types::Message'], 'C02': ['S15-4:align:composed::message::types::Message']}),
     ('F7-armor-finish', '980e727', {'C09': ['S09-2:finish:'], 'C10': ['S09-2:finish:']}),
     ('F17-aes-kw-underflow', '1588266', {'C04': ['panic:crypto::aes_kw::unwrap|assert|Overflow(Sub)']}),
     ('F1-pkesk-empty-session-key', 'f309399', {'C04': ['panic:types::params::plain_secret::PlainSecretParams::decrypt|call|index[usize]']}),
@@ -39,10 +38,10 @@ REVERTS = [
     ('F39-packet-sum-double-header', 'a58094b', {'C05': ['S05-2:sum-type-header-once'], 'C17': ['S05-2:sum-type-header-once']}),
     ('F40-critical-experimental-subpacket', '70b60a0', {'C15': ['S15-6:critical-unknown-covers-opaque-types']}),
     ('F41-inline-hash-strength', 'dc56f4e', {'C15': ['S15-8:hash-strength:composed::message::types::Message']}),
-    ('F42-ring-cross-group', '1f13ec7', {'C18': ['ring:cross-group-consistency']}),
+    ('F42-ring-cross-group', 'aa891ad,1f13ec7', {'C18': ['ring:cross-group-consistency']}),
     ('F43-signed-many-slot-misalignment', '01487b1', {'C02': ['S02-9:slots-pushed-in-pairs'], 'C06': ['S02-9:slots-pushed-in-pairs']}),
     ('F44-v3-signature-subpacket-push', '1db2fe1', {'C05': ['S05-13:adjusts-only-what-is-written:packet::signature::types::Signature::unhashed_subpacket_insert:unhashed_subpackets']}),
-    ('F45-mpi-bit-count-truncated', 'e4348ba', {'C05': ['cast:<types::mpi::Mpi as ser::Serialize>::to_writer:u16#1']}),
+    ('F45-mpi-bit-count-truncated', 'e3d856e,e4348ba', {'C05': ['cast:<types::mpi::Mpi as ser::Serialize>::to_writer:u16#1']}),
     ('F47-read-again-after-error-panics', 'fc88375', {'C04': ['poison:returns-error:<armor::reader::Dearmor<R> as std::io::Read>::read:Part::Temp#1', 'poison:returns-error:composed::message::reader::literal::LiteralDataReader::<R>::fill_inner:via:is_done#1']}),
     ('F48-aead-decryptor-no-error-latch', 'a114df8', {'C03': ['v2:sticky-error'], 'C09': ['v2:sticky-error']}),
     ('F49-trailing-padding-buffered', '68e0845', {'C19': ["S19-5:buffer-read-is-used:composed::message::types::MessageReader::<'_>::check_trailing_data::check_next_packet#1"]}),
@@ -52,7 +51,7 @@ REVERTS = [
     ('F53-gnupg-constructor-checks-key-l', '1e043d0', {'C04': ['focus:gnupg-constructor-checks-key-length']}),
     ('F54-rsa-secret-primes-invertible', '7586156', {'C04': ['focus:rsa-secret-primes-invertible']}),
     ('F55-<crypto', '857e232', {'C04': ['narrow-sum:<crypto::checksum::SimpleChecksum as std::hash::Hasher>::write#1']}),
-    ('F56-nesting-depth-bounded', 'cb753fd', {'C04': ['focus:nesting-depth-bounded']}),
+    ('F56-nesting-depth-bounded', 'bd98062,cb753fd', {'C04': ['focus:nesting-depth-bounded']}),
     ('F57-output-index-guarded', '6b579e5', {'C09': ['read:output-index-guarded:<base64::reader::Base64Reader<R> as std::io::Read>::read']}),
     ('F58-image-header-unknown-version', 'd1a0ebc', {'C05': ['S05-14:image-header-length-formula']}),
     ('F59-cleartext-cr-blank-lf', 'f959d6a', {'C16': ['S16-1:trimmed-cr-kept-as-content']}),
